@@ -1,6 +1,92 @@
 package main
 
-// childMain handles invocations as a sandboxed child process (used by the
-// checks whose inputs may crash, hang or exhaust memory).  Returns true when
-// the process was started as a child and has done its work.
-func childMain() bool { return false }
+import (
+	"bytes"
+	"context"
+	"fmt"
+	"os"
+	"os/exec"
+	"strings"
+	"time"
+)
+
+// children are functions run in a separate process (inputs that may crash the
+// runtime, hang or exhaust memory).  The child prints its canonical answer on
+// the last line of stdout prefixed with "RESULT ".
+var children = map[string]func(args []string) string{}
+
+// childMain handles invocations as a child process.  Returns true when the
+// process was started as a child and has done its work.
+func childMain() bool {
+	name := os.Getenv("QIH_CHILD")
+	if name == "" {
+		return false
+	}
+	f, ok := children[name]
+	if !ok {
+		fmt.Println("RESULT bad-child")
+		return true
+	}
+	args := strings.Fields(os.Getenv("QIH_CHILD_ARGS"))
+	res := func() (r string) {
+		defer func() {
+			if e := recover(); e != nil {
+				r = "panic"
+				fmt.Fprintf(os.Stderr, "child panic: %v\n", e)
+			}
+		}()
+		return f(args)
+	}()
+	fmt.Println("RESULT " + res)
+	return true
+}
+
+type childOutcome struct {
+	Result string // RESULT line, or "crash", "timeout", "oom"
+	Stderr string
+	Wall   time.Duration
+}
+
+// runChild re-executes this binary as child `name`.
+func runChild(name string, args string, timeout time.Duration, memLimitMB int) childOutcome {
+	ctx, cancel := context.WithTimeout(context.Background(), timeout)
+	defer cancel()
+	self, _ := os.Executable()
+	cmd := exec.CommandContext(ctx, self)
+	cmd.Env = append(os.Environ(), "QIH_CHILD="+name, "QIH_CHILD_ARGS="+args)
+	if memLimitMB > 0 {
+		cmd.Env = append(cmd.Env, fmt.Sprintf("GOMEMLIMIT=%dMiB", memLimitMB), fmt.Sprintf("QIH_MEMLIMIT_MB=%d", memLimitMB))
+	}
+	var so, se bytes.Buffer
+	cmd.Stdout = &so
+	cmd.Stderr = &se
+	t0 := time.Now()
+	err := cmd.Run()
+	out := childOutcome{Wall: time.Since(t0), Stderr: tail(se.String(), 1500)}
+	if ctx.Err() == context.DeadlineExceeded {
+		out.Result = "timeout"
+		return out
+	}
+	for _, l := range strings.Split(so.String(), "\n") {
+		if strings.HasPrefix(l, "RESULT ") {
+			out.Result = strings.TrimPrefix(l, "RESULT ")
+		}
+	}
+	if out.Result == "" {
+		out.Result = "crash"
+		if err == nil {
+			out.Result = "crash-noresult"
+		}
+		if strings.Contains(se.String(), "out of memory") || strings.Contains(se.String(), "cannot allocate memory") {
+			out.Result = "oom"
+		}
+	}
+	return out
+}
+
+func tail(s string, n int) string {
+	if len(s) > n {
+		return s[len(s)-n:]
+	}
+	return s
+}
